@@ -1,0 +1,105 @@
+//go:build verif
+
+package goat
+
+import (
+	"context"
+	"sync"
+	"time"
+
+	"google.golang.org/grpc"
+
+	"github.com/avos-io/goat/gen/goatorepo"
+)
+
+// Accessors for the external verification harness (build tag "verif" only).
+
+var (
+	verifMu       sync.Mutex
+	verifHandlers []*handler
+)
+
+func verifTrack(h *handler) {
+	verifMu.Lock()
+	verifHandlers = append(verifHandlers, h)
+	verifMu.Unlock()
+}
+
+// VerifResetTracking forgets all tracked server connections.
+func VerifResetTracking() {
+	verifMu.Lock()
+	verifHandlers = nil
+	verifMu.Unlock()
+}
+
+// VerifServerStreamCounts returns len(streams) of every tracked server
+// connection, in creation order.
+func VerifServerStreamCounts() []int {
+	verifMu.Lock()
+	hs := append([]*handler(nil), verifHandlers...)
+	verifMu.Unlock()
+	out := make([]int, len(hs))
+	for i, h := range hs {
+		h.mu.Lock()
+		out[i] = len(h.streams)
+		h.mu.Unlock()
+	}
+	return out
+}
+
+// VerifNumHandlers returns the number of calls registered with the client
+// connection's multiplexer.
+func (cc *ClientConn) VerifNumHandlers() int { return cc.mp.VerifNumHandlers() }
+
+func VerifParseGrpcTimeout(s string) (time.Duration, bool) { return parseGrpcTimeout(s) }
+
+func VerifParseRawMethod(s string) (string, string, error) { return parseRawMethod(s) }
+
+func VerifHeadersFromContext(ctx context.Context) []*goatorepo.KeyValue {
+	return headersFromContext(ctx)
+}
+
+func VerifContextFromHeaders(parent context.Context, h *goatorepo.RequestHeader) (context.Context, context.CancelFunc, error) {
+	return contextFromHeaders(parent, h)
+}
+
+func VerifChainUnaryHandler(is []grpc.UnaryServerInterceptor, curr int, info *grpc.UnaryServerInfo, final grpc.UnaryHandler) grpc.UnaryHandler {
+	return getChainUnaryHandler(is, curr, info, final)
+}
+
+func VerifChainStreamHandler(is []grpc.StreamServerInterceptor, curr int, info *grpc.StreamServerInfo, final grpc.StreamHandler) grpc.StreamHandler {
+	return getChainStreamHandler(is, curr, info, final)
+}
+
+// VerifProxyClients returns the names currently registered with the proxy.
+func (p *Proxy) VerifProxyClients() []string {
+	p.mutex.Lock()
+	defer p.mutex.Unlock()
+	out := []string{}
+	for k := range p.clients {
+		out = append(out, k)
+	}
+	return out
+}
+
+// VerifDemuxKeys returns the keys currently registered with the demux.
+func (gsd *Demux) VerifDemuxKeys() []string {
+	gsd.conns.Lock()
+	defer gsd.conns.Unlock()
+	out := []string{}
+	for k := range gsd.conns.value {
+		out = append(out, k)
+	}
+	return out
+}
+
+// VerifHttpConns returns the addresses currently registered with the HTTP table.
+func (goh *GoatOverHttp) VerifHttpConns() []string {
+	goh.conns.Lock()
+	defer goh.conns.Unlock()
+	out := []string{}
+	for k := range goh.conns.value {
+		out = append(out, k)
+	}
+	return out
+}
